@@ -103,6 +103,11 @@ def monitor(script, c):
                     return hits
                 for g, who in ((g1, "sender"), (g2, "receiver")):
                     if len(g) > 3 and int(g[2], 16) == 0 and int(g[3], 16) != idx >> 16:
+                        if r_set == 0:
+                            # 0 is the library's "no ROC pending" value: set_roc(0) is a no-op, the packet is estimated naturally
+                            hits.append({"what": "srtp_stream_set_roc(.., 0) is a no-op: the next packet was processed with the natural estimate, not with ROC 0",
+                                         "signature": "setroc-zero-is-noop", "detail": f"line {n}: roc {g[3]} after set_roc(0)"})
+                            return hits
                         hits.append({"what": f"after set_roc the {who}'s ROC does not follow the sequence-number wraps",
                                      "signature": f"setroc-roc-wrong-{who}", "detail": f"line {n}: roc {g[3]} expected {idx>>16:x}"})
                         return hits
